@@ -2,7 +2,8 @@
      graph/path.rs:80-140        graph_to_paths, paths_for_node (cycle guard = set of the ids on
                                  the current recursion stack)
      model/node.rs:342-357,383-389,444-452   is_primary_section, to_parent, to_document, is_in_list
-     graph.rs:75-97,534-546      search_paths, render_search_text
+     graph.rs:74-98,556-565      search_paths (since the repair of F-SEARCHTIE the comparator goes on after
+                                 rank and key: search text, line, texts of the chain), path_texts, render_search_text
      model/rank.rs:5-25          node_rank
      database.rs:43-77           global_search (fuzzy score = oracle, stable sort, take 100)
      iwes server.rs:222-233,649-688   workspace symbols: path_to_symbol / render_path
@@ -247,24 +248,56 @@ Section StableSort.
   Definition stable_sort (l : list A) : list A := fold_right insert_stable [] l.
 End StableSort.
 
-(* rank descending, then key ascending *)
-Definition sp_le (x y : spath) : bool :=
-  if Nat.ltb (sp_rank y) (sp_rank x) then true
-  else if Nat.ltb (sp_rank x) (sp_rank y) then false
-  else str_leb (sp_key x) (sp_key y).
+(* Ordering::then_with *)
+Definition then_with (c d : comparison) : comparison := match c with Eq => d | _ => c end.
 
-Definition search_paths_of (s : gstate) (paths : list (list nat)) : res (list spath) :=
+(* Ord for Vec<String>: lexicographic, the elements by Ord for str *)
+Fixpoint strs_cmp (l m : list string) : comparison :=
+  match l, m with
+  | [], [] => Eq
+  | [], _ => Lt
+  | _, [] => Gt
+  | x :: l', y :: m' => then_with (String.compare x y) (strs_cmp l' m')
+  end.
+
+(* what the comparator of search_paths (graph.rs:87-96) reads of an entry: node_rank, key, search_text, line
+   and the heading texts of the chain (path_texts, graph.rs:556-561) - nothing that depends on node ids *)
+Definition sview := (nat * string * string * nat * list string)%type.
+
+(* b.node_rank.cmp(&a.node_rank) .then_with(key) .then_with(search_text) .then_with(line) .then_with(path_texts):
+   rank descending, then key, search text, line, texts of the chain ascending *)
+Definition sv_cmp (x y : sview) : comparison :=
+  let '(rx, kx, tx, lx, cx) := x in let '(ry, ky, ty, ly, cy) := y in
+  then_with (Nat.compare ry rx)
+    (then_with (String.compare kx ky)
+       (then_with (String.compare tx ty)
+          (then_with (Nat.compare lx ly) (strs_cmp cx cy)))).
+
+(* the stable sort puts x before y unless the comparator answers Greater *)
+Definition sv_le (x y : sview) : bool := match sv_cmp x y with Gt => false | _ => true end.
+
+(* a search path together with the texts of its chain (the comparator reads them from the graph) *)
+Definition sentry := (spath * list string)%type.
+Definition sp_view (e : sentry) : sview :=
+  (sp_rank (fst e), sp_key (fst e), sp_text (fst e), sp_line (fst e), snd e).
+Definition sp_le (x y : sentry) : bool := sv_le (sp_view x) (sp_view y).
+
+(* the `par_iter().map(..)` of search_paths: one entry per path, in path order *)
+Definition sp_entries (s : gstate) (paths : list (list nat)) : res (list sentry) :=
   let a := gr_arena (gs_graph s) in
-  do l <- fold_right (fun p acc =>
+  fold_right (fun p acc =>
             do r <- acc;
-            do t <- render_search_text a p;
+            do ts <- texts_of a p;
             do target <- last_id p;
             do rk <- node_rank s target;
             do key <- graph_node_key (nav_fuel a) a target;
-            Ok (SP t rk key (Nat.eqb (length p) 1)
-                   (match node_line_range s target with Some r => fst r | None => 0 end) p :: r))
-          (Ok []) paths;
-  Ok (stable_sort sp_le l).
+            Ok ((SP (join " " ts) rk key (Nat.eqb (length p) 1)
+                    (match node_line_range s target with Some r => fst r | None => 0 end) p, ts) :: r))
+          (Ok []) paths.
+
+Definition search_paths_of (s : gstate) (paths : list (list nat)) : res (list spath) :=
+  do l <- sp_entries s paths;
+  Ok (map fst (stable_sort sp_le l)).
 
 Definition search_paths (filt : bool) (s : gstate) : res (list spath) :=
   do ps <- graph_to_paths filt s; search_paths_of s ps.
